@@ -90,10 +90,19 @@ func getMethodIndex(index int) methodIndexEntity {
 	return methodIndexes[index]
 }
 
-func (n *node[T]) AllowHeader() string { return getMethodIndex(n.methodIndex).options }
+// AllowHeader 由用户的处理方法在请求期间调用，此时并未持有 Tree 的锁。
+func (n *node[T]) AllowHeader() string { return getMethodIndex(n.lockedMethodIndex()).options }
 
 // Methods 当前节点支持的请求方法
-func (n *node[T]) Methods() []string { return getMethodIndex(n.methodIndex).methods }
+func (n *node[T]) Methods() []string { return getMethodIndex(n.lockedMethodIndex()).methods }
+
+func (n *node[T]) lockedMethodIndex() int {
+	if l := n.root.locker; l != nil {
+		l.RLock()
+		defer l.RUnlock()
+	}
+	return n.methodIndex
+}
 
 // 添加一个处理函数
 func (n *node[T]) addMethods(h T, pattern string, ms []types.Middleware[T], methods ...string) error {
